@@ -44,11 +44,11 @@ def plan(tier, seed):
               "with pseudo-only e.p., a command after game over, or a ComputerPlayer claim."),
         floors={"uci: third occurrence": 900 * sc, "uci: third occurrence, odd history length": 300 * sc, "uci: third occurrence, even history length": 300 * sc,
                 "uci: third occurrence, first one right after a double push with pseudo-only e.p.": 60 * sc,
-                "uci: third occurrence, first one right after a double push without capturer": 20 * sc,
+                "uci: third occurrence, first one right after a double push without capturer": 15 * sc,
                 "uci: third occurrence, same placement with a legal e.p. capture earlier (not counted)": 20 * sc,
                 "uci: third occurrence, same placement with other castling rights also in history": 80 * sc,
                 "uci: third occurrence, irreversible move earlier in the history": 300 * sc,
-                "uci: hmc 99 -> 100": 250 * sc, "uci: hmc reached by play (>= 60 history plies)": 80 * sc,
+                "uci: hmc 99 -> 100": 200 * sc, "uci: hmc reached by play (>= 60 history plies)": 80 * sc,
                 "uci: mate on the move that reaches hmc >= 100": 120 * sc, "uci: MultiPV 2 with two root moves": 150 * sc,
                 "game: DRAW_REP reached": 800 * sc, "game: DRAW_50 reached": 2000 * sc, "game: DRAW_AGREE reached": 2000 * sc,
                 "game: DRAW_NO_MATE reached": 900 * sc, "game: mate reached": 100 * sc, "game: stalemate reached": 100 * sc,
